@@ -1,6 +1,7 @@
 package c12
 
 import (
+	"unsafe"
 	"bytes"
 	"context"
 	"encoding/binary"
@@ -50,9 +51,21 @@ struct Resp {
   2: list<Inner> items
   5: required i32 code (api.http_code = "")
 }
+struct Inner2 {
+  3: i32 c
+  1: i32 a
+  2: string b
+}
+struct Shuffled {
+  5: string e
+  2: i32 b
+  9: Inner2 inner
+  1: bool flag
+}
 service Svc {
   Resp M(1: Req req) (api.post = "/m")
   Small Cut(1: Small req)
+  Shuffled Shuf(1: Shuffled req)
 }
 `
 
@@ -107,12 +120,14 @@ var opNames = []string{
 	"j2t.HTTPConv.Do(traceback,ok)",
 	"j2t.HTTPConv.Do(form)",
 	"t2j.HTTPConv.Do",
+	"t2j.HTTPConv.Do(NoCopyString,header)",
 	"j2p.Do(nested)",
 	"p2j.Do(nested)",
 	"thrift.GetByPath+Interface",
 	"thrift.Load+Marshal(pooled)",
 	"thrift.MarshalTo(Small)",
 	"thrift.SetMany(fork)",
+	"thrift.DescriptorToPathNode(Shuffled)",
 	"proto.Load+Marshal(pooled)",
 	"proto.MarshalTo(Small)",
 	"idl.lookups",
@@ -130,6 +145,7 @@ type fixture struct {
 	reqT     *thrift.TypeDescriptor
 	respT    *thrift.TypeDescriptor
 	smallT   *thrift.TypeDescriptor
+	shufT    *thrift.TypeDescriptor // a struct (and a nested one) whose field ids are declared in non-ascending order
 	fnM      *thrift.FunctionDescriptor
 	psvc     *proto.ServiceDescriptor
 	preqT    *proto.TypeDescriptor
@@ -208,6 +224,28 @@ func (r *respSetter) dump() []byte {
 	return []byte(fmt.Sprintf("%d|%s|%s", r.code, strings.Join(r.headers, ","), r.body))
 }
 
+// strBytes: the memory of s as a byte slice (no copy).
+func strBytes(s string) []byte {
+	h := (*[2]uintptr)(unsafe.Pointer(&s))
+	var b []byte
+	bh := (*[3]uintptr)(unsafe.Pointer(&b))
+	bh[0], bh[1], bh[2] = h[0], h[1], h[1]
+	return b
+}
+
+// aliasSetter keeps the header value string itself (respSetter builds new strings).
+type aliasSetter struct{ header string }
+
+func (r *aliasSetter) SetStatusCode(c int) error { return nil }
+func (r *aliasSetter) SetHeader(k, v string) error {
+	if k == "X-Msg" {
+		r.header = v
+	}
+	return nil
+}
+func (r *aliasSetter) SetCookie(k, v string) error { return nil }
+func (r *aliasSetter) SetRawBody(b []byte) error   { return nil }
+
 func newFixture() (*fixture, error) {
 	f := &fixture{inputs: map[string][]byte{}, sums: map[string]uint32{}}
 	ctx := context.Background()
@@ -220,6 +258,7 @@ func newFixture() (*fixture, error) {
 	f.reqT = f.fnM.Request().Struct().FieldById(1).Type()
 	f.respT = f.fnM.Response().Struct().FieldById(0).Type()
 	f.smallT = svc.Functions()["Cut"].Request().Struct().FieldById(1).Type()
+	f.shufT = svc.Functions()["Shuf"].Request().Struct().FieldById(1).Type()
 	psvc, err := proto.NewDescritorFromContent(ctx, "a/b/main.proto", protoIDL, map[string]string{})
 	if err != nil {
 		return nil, fmt.Errorf("proto idl: %v", err)
@@ -392,6 +431,17 @@ func newFixture() (*fixture, error) {
 		err := cv.Do(ctx, rs, in["thrift-resp-msg"], conv.Options{EnableHttpMapping: true})
 		return rs.dump(), err
 	})
+	add("t2j.HTTPConv.Do(NoCopyString,header)", func() ([]byte, error) {
+		// the header value exactly as the response object holds it (no copy made by the harness): it must stay what it
+		// is while later conversions run
+		rs := &aliasSetter{}
+		cv := t2j.NewHTTPConv(meta.EncodingThriftBinary, f.fnM)
+		err := cv.Do(ctx, rs, in["thrift-resp-msg"], conv.Options{EnableHttpMapping: true, NoCopyString: true})
+		if err != nil || rs.header == "" {
+			return nil, err
+		}
+		return strBytes(rs.header), nil
+	})
 	add("j2p.Do(nested)", func() ([]byte, error) { return f.j2pc.Do(ctx, f.preqT, in["pbjson-nested"]) })
 	add("p2j.Do(nested)", func() ([]byte, error) { return f.p2jc.Do(ctx, f.preqT, in["pb-nested"]) })
 	add("thrift.GetByPath+Interface", func() ([]byte, error) {
@@ -427,6 +477,14 @@ func newFixture() (*fixture, error) {
 			{Path: generic.NewPathFieldId(5), Node: generic.NewNodeInt32(99)},
 		}, &generic.Options{})
 		return n.Raw(), err
+	})
+	add("thrift.DescriptorToPathNode(Shuffled)", func() ([]byte, error) {
+		var root generic.PathNode
+		o := &generic.Options{DescriptorToPathNodeWriteDefualt: true, DescriptorToPathNodeWriteOptional: true}
+		if err := generic.DescriptorToPathNode(f.shufT, &root, o); err != nil {
+			return nil, err
+		}
+		return root.Marshal(&generic.Options{})
 	})
 	add("proto.Load+Marshal(pooled)", func() ([]byte, error) {
 		tree := pgeneric.NewPathNode()
